@@ -12,6 +12,13 @@ import PPLV.Lattice.ProofsGridOpsCon20
 import PPLV.Lattice.ProofsGridOpsCon25
 import PPLV.Lattice.ProofsGridOpsCon26
 import PPLV.Lattice.ProofsGridOpsGen32
+import PPLV.Lattice.ProofsGridOpsGen43
+import PPLV.Lattice.ProofsGridOpsLazy26
+import PPLV.Lattice.ProofsGridOpsCon33
+import PPLV.Lattice.ProofsGridOpsCon35
+import PPLV.Lattice.ProofsGridOpsCon36
+import PPLV.Lattice.ProofsGridOpsCon38
+import PPLV.Lattice.ProofsGridOpsCon39
 
 /-!
 # C05, stage 3 — the `Grid` class itself: lazy status machinery, mutators and observers on the raw object
@@ -164,6 +171,13 @@ inductive Op where
   | affineImage (v : Nat) (e : LinExpr) (den : Int)
   | affinePreimage (v : Nat) (e : LinExpr) (den : Int)
   | removeSpaceDimensions (vars : List Nat)
+  | differenceAssign (y : Grid)
+  | expandSpaceDimension (v m : Nat)
+  | foldSpaceDimensions (vars : List Nat) (dest : Nat)
+  | addRecycledGridGenerators (gs : GSys)        -- add_grid_generators / add_recycled_grid_generators
+  | addSpaceDimensionsAndProject (m : Nat)
+  | boundedAffineImage (v : Nat) (lb ub : LinExpr) (den : Int)
+  | boundedAffinePreimage (v : Nat) (lb ub : LinExpr) (den : Int)
   | unconstrainVar (v : Nat)
   | unconstrainSet (vars : List Nat)
   | addGridGenerator (x : GRow)
@@ -192,6 +206,13 @@ def Op.run : Op → Grid → Grid
   | .affineImage v e den, g => (GO.affineImage g v e den).g
   | .affinePreimage v e den, g => (GO.affinePreimage g v e den).g
   | .removeSpaceDimensions vars, g => (GO.removeSpaceDimensions g vars).g
+  | .differenceAssign y, g => (GO.differenceAssign g y).x
+  | .expandSpaceDimension v m, g => (GO.expandSpaceDimension g v m).g
+  | .foldSpaceDimensions vars dest, g => (GO.foldSpaceDimensions g vars dest).g
+  | .addRecycledGridGenerators gs, g => (GO.addRecycledGridGenerators g gs).g
+  | .addSpaceDimensionsAndProject m, g => GO.addSpaceDimensionsAndProject g m
+  | .boundedAffineImage v lb ub den, g => (GO.boundedAffineImage g v lb ub den).g
+  | .boundedAffinePreimage v lb ub den, g => (GO.boundedAffinePreimage g v lb ub den).g
   | .unconstrainVar v, g => (GO.unconstrainVar g v).g
   | .unconstrainSet vs, g => (GO.unconstrainSet g vs).g
   | .addGridGenerator x, g => (GO.addGridGenerator g x).g
@@ -219,10 +240,18 @@ def Op.pre : Op → Grid → Prop
   | .isEmpty, _ => True
   | .upperBoundAssign y, g => GridInv y ∧ g.spaceDim = y.spaceDim
   | .timeElapseAssign y, g => GridInv y ∧ g.spaceDim = y.spaceDim
-  | .addSpaceDimensionsAndEmbed m, g => 0 < m ∧ (g.st.empty = true ∨ (0 < g.spaceDim ∧ g.st.cUp = true ∧ g.st.gUp = false))
+  | .addSpaceDimensionsAndEmbed _, _ => True
   | .affineImage v e den, g => den ≠ 0 ∧ e.spaceDim ≤ g.spaceDim ∧ v + 1 ≤ g.spaceDim
   | .affinePreimage v e den, g => den ≠ 0 ∧ e.spaceDim ≤ g.spaceDim ∧ v + 1 ≤ g.spaceDim
   | .removeSpaceDimensions vars, g => vars.Pairwise (· < ·) ∧ ∀ v ∈ vars, v < g.spaceDim
+  | .differenceAssign y, g => GridInv y ∧ g.spaceDim = y.spaceDim
+  | .expandSpaceDimension v m, g => v < g.spaceDim ∧ 0 < m
+  | .foldSpaceDimensions vars dest, g => dest < g.spaceDim ∧ vars ≠ [] ∧ vars.Pairwise (· < ·) ∧ (∀ v ∈ vars, v < g.spaceDim) ∧ dest ∉ vars
+  | .addRecycledGridGenerators gs, g => gn_GsOK gs ∧ gs.dim ≤ g.spaceDim ∧ 0 < g.spaceDim ∧ gs.rows ≠ [] ∧
+      (g.sem = ∅ → ∃ p ∈ gs.rows, gn_isPt p = true)
+  | .addSpaceDimensionsAndProject m, g => m = 0 ∨ g.st.empty = true ∨ 0 < g.spaceDim     -- the remaining case is KF-C05-9
+  | .boundedAffineImage v lb ub den, g => g.st.empty = false ∧ den ≠ 0 ∧ v + 1 ≤ g.spaceDim ∧ lb.spaceDim ≤ g.spaceDim ∧ ub.spaceDim ≤ g.spaceDim
+  | .boundedAffinePreimage v lb ub den, g => g.st.empty = false ∧ den ≠ 0 ∧ v + 1 ≤ g.spaceDim ∧ lb.spaceDim ≤ g.spaceDim ∧ ub.spaceDim ≤ g.spaceDim
   | .unconstrainVar v, g => v < g.spaceDim
   | .unconstrainSet vs, g => ∀ v ∈ vs, v < g.spaceDim
   | .addGridGenerator x, g => gn_RowOK x ∧ x.spaceDim ≤ g.spaceDim ∧ 0 < g.spaceDim ∧ (g.sem = ∅ → gn_isPt x = true)
@@ -233,6 +262,9 @@ def Op.dim : Op → Nat → Nat
   | .assign y, _ => y.spaceDim
   | .addSpaceDimensionsAndEmbed m, n => n + m
   | .removeSpaceDimensions vars, n => n - vars.length
+  | .expandSpaceDimension _ m, n => n + m
+  | .foldSpaceDimensions vars _, n => n - vars.length
+  | .addSpaceDimensionsAndProject m, n => n + m
   | _, n => n
 
 /-- **the reference**: the documented set transformer, as a relation between the set denoted before and after
@@ -260,6 +292,13 @@ def Op.post : Op → Nat → Set Pt → Set Pt → Prop
   | .affineImage v e den, _, S, S' => S' = lzF v e den '' S
   | .affinePreimage v e den, n, S, S' => S' = cn_preSet n v e den S
   | .removeSpaceDimensions vars, n, S, S' => S' = cn_sel n vars '' S
+  | .differenceAssign y, _, S, S' => S \ y.sem ⊆ S' ∧ S' ⊆ S
+  | .expandSpaceDimension v m, n, S, S' => S' = cn_expandSet n v m S
+  | .foldSpaceDimensions vars dest, n, S, S' => ∃ T, cn_FoldChain dest vars S T ∧ S' = cn_sel n vars '' T
+  | .addRecycledGridGenerators gs, _, S, S' => (S = ∅ → S' = gn_set gs.rows) ∧ (S.Nonempty → gn_IsAddGens S' S gs.rows)
+  | .addSpaceDimensionsAndProject _, _, S, S' => S' = S
+  | .boundedAffineImage v _ _ _, _, S, S' => S' = {y | ∃ a ∈ S, ∃ c : ℚ, y = a + c • (unit v).toFun}
+  | .boundedAffinePreimage v _ _ _, _, S, S' => S' = {y | ∃ a ∈ S, ∃ c : ℚ, y = a + c • (unit v).toFun}
   | .unconstrainVar v, _, S, S' => S' = {y | ∃ x ∈ S, ∃ c : ℚ, y = x + c • (unit v).toFun}
   | .unconstrainSet vs, _, S, S' => S' = gn_cyl S vs
   | .addGridGenerator x, _, S, S' =>
@@ -372,15 +411,39 @@ theorem op_step (op : Op) (g : Grid) (hI : GridInv g) (hp : op.pre g) :
     obtain ⟨hy, hd⟩ := hp
     obtain ⟨a, _, _, d, _, _, h⟩ := gn_timeElapseAssign hEG g y hI hy hd
     exact ⟨a, h, d⟩
-  | addSpaceDimensionsAndEmbed m =>
-    obtain ⟨hm, h | ⟨hpos, hc, hg⟩⟩ := hp
-    · exact cn_embed_empty g m hm h
-    · have he : g.st.empty = false := by
-        cases hemp : g.st.empty
-        · rfl
-        · have := (hI.emp hemp).1
-          rw [this] at hc; cases hc
-      exact cn_embed_con_full g m hI hm he hpos hc hg
+  | addSpaceDimensionsAndEmbed m => exact addSpaceDimensionsAndEmbed_full g m hI
+  | differenceAssign y =>
+    obtain ⟨hy, hd⟩ := hp
+    obtain ⟨a, _, _, d, _, _, h1, h2⟩ := gn_differenceAssign g y hI hy hd
+    exact ⟨a, ⟨h1, h2⟩, d⟩
+  | expandSpaceDimension v m =>
+    obtain ⟨hv, hm⟩ := hp
+    obtain ⟨a, b, c⟩ := (cn_expandSpaceDimension g v m hI).2.2.2 hv hm
+    exact ⟨a, c, b⟩
+  | foldSpaceDimensions vars dest =>
+    obtain ⟨hd, hne, hinc, hlt, hnd⟩ := hp
+    obtain ⟨_, a, b, c⟩ := cn_foldSpaceDimensions g vars dest hI hd hne hinc hlt hnd
+    exact ⟨a, c, b⟩
+  | addRecycledGridGenerators gs =>
+    obtain ⟨hgs, hd, hn, hne, hpt⟩ := hp
+    obtain ⟨a, b, c, _, e⟩ := gn_addRecycledGridGenerators g hI gs hgs hd hn hne
+    have hnt : (addRecycledGridGenerators g gs).thrown = false := by
+      cases h : (addRecycledGridGenerators g gs).thrown
+      · rfl
+      · obtain ⟨h1, h2⟩ := c.mp h
+        exact absurd (hpt h1) h2
+    exact ⟨a, e hnt, b⟩
+  | addSpaceDimensionsAndProject m =>
+    obtain ⟨a, b, c, _⟩ := cn_addSpaceDimensionsAndProject_full g m hI
+    exact ⟨a, c hp, b⟩
+  | boundedAffineImage v lb ub den =>
+    obtain ⟨hne, hden, hv, hlb, hub⟩ := hp
+    obtain ⟨_, a, b, c⟩ := boundedAffineImage_spec g v lb ub den hI hne hden hv hlb hub
+    exact ⟨a, c, b⟩
+  | boundedAffinePreimage v lb ub den =>
+    obtain ⟨hne, hden, hv, hlb, hub⟩ := hp
+    obtain ⟨_, a, b, c⟩ := boundedAffinePreimage_spec g v lb ub den hI hne hden hv hlb hub
+    exact ⟨a, c, b⟩
   | affineImage v e den =>
     obtain ⟨hden, hed, hv⟩ := hp
     cases hemp : g.st.empty
@@ -800,6 +863,77 @@ theorem is_discrete_correct (g : Grid) (hI : GridInv g) :
     GridInv (isDiscrete g).1 ∧ (isDiscrete g).1.sem = g.sem ∧ ((isDiscrete g).2 = true ↔ ¬ cn_HasLine g.sem) := by
   obtain ⟨a, b, _, c⟩ := cn_isDiscrete g hI
   exact ⟨a, b, c⟩
+
+/-- `is_universe()`: `true` exactly when the grid is the whole space -/
+theorem is_universe_correct (g : Grid) (hI : GridInv g) :
+    GridInv (isUniverse g).1 ∧ (isUniverse g).1.sem = g.sem ∧ ((isUniverse g).2 = true ↔ g.sem = {x | Supp g.spaceDim x}) := by
+  obtain ⟨a, b, _, c⟩ := gn_isUniverse g hI
+  exact ⟨a, b, c⟩
+
+/-- `is_bounded()`: `true` exactly when the grid has at most one point -/
+theorem is_bounded_correct (g : Grid) (hI : GridInv g) :
+    GridInv (isBounded g).1 ∧ (isBounded g).1.sem = g.sem ∧ ((isBounded g).2 = true ↔ g.sem.Subsingleton) := by
+  obtain ⟨a, b, _, c⟩ := gn_isBounded g hI
+  exact ⟨a, b, c⟩
+
+/-- `constrains(var)`: `false` exactly when the grid is non-empty and invariant under every change of coordinate `var`
+    (the syntactic test on non-minimized up-to-date congruences is exact too) -/
+theorem constrains_correct (g : Grid) (v : Nat) (hI : GridInv g) :
+    ((constrains g v).2 = none ↔ g.spaceDim < v + 1) ∧ GridInv (constrains g v).1 ∧ (constrains g v).1.sem = g.sem ∧
+    (∀ b, (constrains g v).2 = some b → (b = false ↔ cn_Unconstrained v g.sem)) := by
+  obtain ⟨a, b, c, _, d⟩ := cn_constrains g v hI
+  exact ⟨a, b, c, d⟩
+
+/-- `difference_assign(y)` (Grid_public.cc:1649): both objects keep their invariants, the argument its set, and the result
+    is sound as K2's reference `difference` is (`C05.difference_sound`): `G ∖ H ⊆ D ⊆ G` -/
+theorem difference_assign_sound (x y : Grid) (hx : GridInv x) (hy : GridInv y) (hd : x.spaceDim = y.spaceDim) :
+    GridInv (differenceAssign x y).x ∧ GridInv (differenceAssign x y).y ∧ (differenceAssign x y).thrown = false ∧
+    (differenceAssign x y).y.sem = y.sem ∧ x.sem \ y.sem ⊆ (differenceAssign x y).x.sem ∧
+    (differenceAssign x y).x.sem ⊆ x.sem := by
+  obtain ⟨a, b, c, _, _, d, e, f⟩ := gn_differenceAssign x y hx hy hd
+  exact ⟨a, b, c, d, e, f⟩
+
+/-- `expand_space_dimension(v, m)`: rejected exactly when `v` is not a dimension, and then unchanged; `m = 0` unchanged -/
+theorem expand_space_dimension_rejects (g : Grid) (v m : Nat) (hI : GridInv g) :
+    ((expandSpaceDimension g v m).thrown = true ↔ g.spaceDim < v + 1) ∧
+    ((expandSpaceDimension g v m).thrown = true → (expandSpaceDimension g v m).g = g) ∧
+    (v < g.spaceDim → m = 0 → (expandSpaceDimension g v m).g = g) :=
+  ⟨(cn_expandSpaceDimension g v m hI).1, (cn_expandSpaceDimension g v m hI).2.1, (cn_expandSpaceDimension g v m hI).2.2.1⟩
+
+/-- `map_space_dimensions(pfunc)` with a permutation that moves something: the image under the coordinate permutation.
+    (Also proved: dimension 0, empty codomain, the identity, the non-permutation case on an empty grid — `cn_mapSD_*`;
+    NOT proved: the non-permutation case on a non-empty grid, rows rebuilt through `grid_line`/`parameter`/`grid_point`.) -/
+theorem map_space_dimensions_permutation (g : Grid) (pf : PFunc) (hI : GridInv g) (he : g.st.empty = false)
+    (hpos : 0 < g.spaceDim) (hne : pf.hasEmptyCodomain = false) (hdim : pf.maxInCodomain + 1 = g.spaceDim)
+    (hmoved : ((List.range g.spaceDim).any fun j => pf.maps j ≠ some j) = true) (hperm : cn_IsPerm pf g.spaceDim) :
+    (mapSpaceDimensions g pf).thrown = false ∧ GridInv (mapSpaceDimensions g pf).g ∧
+      (mapSpaceDimensions g pf).g.spaceDim = g.spaceDim ∧
+      (mapSpaceDimensions g pf).g.sem = cn_pfMap pf g.spaceDim '' g.sem :=
+  cn_mapSD_perm g pf hI he hpos hne hdim hmoved hperm
+
+/-- `generalized_affine_preimage(var, EQUAL, expr, d, m)`, `m ≠ 0`, `expr` without `var` (the path that adds the induced
+    congruence and then the line of `var`): the cylinder over `var` of the points satisfying the congruence.
+    (`m = 0`: `affine_preimage`; other relation symbols: the line of `var`; `expr` with `var`, `m ≠ 0`: what the code
+    computes is `generalizedAffinePreimageVar_equal_inv` — it is NOT the documented relation, open finding KF-C05-10.) -/
+theorem generalized_affine_preimage_var_noninvertible (g : Grid) (v : Nat) (e : LinExpr) (den modulus : Int) (hI : GridInv g)
+    (hne : g.st.empty = false) (hden : den ≠ 0) (hed : e.spaceDim ≤ g.spaceDim) (hv : v + 1 ≤ g.spaceDim)
+    (hm : modulus ≠ 0) (hninv : ¬ (v + 1 ≤ e.spaceDim ∧ e.coeff v ≠ 0)) :
+    (generalizedAffinePreimageVar g v EQUAL e den modulus).thrown = false ∧
+    GridInv (generalizedAffinePreimageVar g v EQUAL e den modulus).g ∧
+    (generalizedAffinePreimageVar g v EQUAL e den modulus).g.sem =
+      {y | ∃ a ∈ g.sem ∩ CRow.set (preimageCg v e den modulus), ∃ c : ℚ, y = a + c • (unit v).toFun} := by
+  obtain ⟨a, b, _, c⟩ := generalizedAffinePreimageVar_equal_noninv g v e den modulus hI hne hden hed hv hm hninv
+  exact ⟨a, b, c⟩
+
+/-- … rejected calls (argument checks) for every receiver, unchanged object -/
+theorem generalized_affine_preimage_var_rejects (g : Grid) (hI : GridInv g) (v : Nat) (relsym : Nat) (e : LinExpr)
+    (den modulus : Int) :
+    ((generalizedAffinePreimageVar g v relsym e den modulus).thrown = true ↔
+      (den = 0 ∨ g.spaceDim < e.spaceDim ∨ g.spaceDim < v + 1 ∨ relsym = NOT_EQUAL ∨ (relsym ≠ EQUAL ∧ modulus ≠ 0))) ∧
+    ((generalizedAffinePreimageVar g v relsym e den modulus).thrown = true →
+      (generalizedAffinePreimageVar g v relsym e den modulus).g = g) :=
+  ⟨(generalizedAffinePreimageVar_thrown g hI v relsym e den modulus).1,
+   (generalizedAffinePreimageVar_thrown g hI v relsym e den modulus).2.1⟩
 
 /-! ## clauses the unchanged code violates (open findings)
 
